@@ -165,7 +165,7 @@ def journalObjectsExpected : List (String × String × String) := [
 
 /-! ### the simple server: the per-inode lock is held across the body and its waiting commit
 
-`Model/Reveal` (M11): whoever obtains a lock next must read only what a crash can no longer undo.
+`Model/Reveal` (M14): whoever obtains a lock next must read only what a crash can no longer undo.
 In simple/ops.go a handler takes the inode's lock, calls its `_internal` body — which reads, writes
 and commits with `CommitWait(true)` — and gives the lock back afterwards. -/
 
